@@ -610,4 +610,45 @@ example : fireCount nodeTypes ["FuncItem".toList] ["FuncItem".toList] "LambdaExp
 example : fireCount nodeTypes ["FuncItem".toList] ["FuncItem".toList] "CallExpr".toList = 0 := by decide +kernel
 example : initFolders ["a".toList, "b".toList] = [["a".toList, "b".toList], ["a".toList]] := by decide
 
+/-! ### The written code is a Python literal -/
+
+/-- Python's decimal integer literal (no underscores): digits only, and no leading zero unless every digit is zero
+    (`008` is a SyntaxError: "leading zeros in decimal integer literals are not permitted") -/
+def pyDecimal (cs : Str) : Bool :=
+  !cs.isEmpty && cs.all Char.isDigit && (cs.head? != some '0' || cs.all (· == '0'))
+
+theorem natChars_head (n : Nat) (h : 0 < n) : (natChars n).head? ≠ some '0' := by
+  induction n using Nat.strongRecOn with
+  | _ n ih =>
+    unfold natChars
+    rw [Nat.toDigits_eq_if (by omega : 1 < 10)]
+    split
+    · rename_i hlt
+      have : n = 1 ∨ n = 2 ∨ n = 3 ∨ n = 4 ∨ n = 5 ∨ n = 6 ∨ n = 7 ∨ n = 8 ∨ n = 9 := by omega
+      rcases this with h | h | h | h | h | h | h | h | h <;> subst h <;> decide
+    · rename_i hge
+      have hpos : 0 < n / 10 := Nat.div_pos (by omega) (by omega)
+      have := ih (n / 10) (Nat.div_lt_self h (by omega)) hpos
+      unfold natChars at this
+      have hne : Nat.toDigits 10 (n / 10) ≠ [] := Nat.toDigits_ne_nil
+      cases hd : Nat.toDigits 10 (n / 10) with
+      | nil => exact absurd hd hne
+      | cons a r => rw [hd] at this; simpa using this
+
+/-- **The code written into the generated file is a Python integer literal**, whatever the next id is (also below 100) -/
+theorem code_literal_valid (id : Nat) : pyDecimal (natChars id) = true := by
+  unfold pyDecimal
+  have hne : natChars id ≠ [] := Nat.toDigits_ne_nil
+  have hdig : (natChars id).all Char.isDigit = true := by
+    rw [List.all_eq_true]; intro c hc
+    exact Nat.isDigit_of_mem_toDigits (by omega) (by omega) hc
+  rcases Nat.eq_zero_or_pos id with h | h
+  · subst h; decide
+  · have := natChars_head id h
+    simp [hne, hdig, this]
+
+/-- a zero-padded rendering (`{id:03}`) is not: the generated check would not even compile -/
+theorem padded_code_invalid : pyDecimal "008".toList = false := by decide
+
+example : natChars 8 = ['8'] ∧ pyDecimal (natChars 8) = true := by decide
 end RefurbVerif.C19
